@@ -263,6 +263,10 @@ func (s *Server) getTargetInfo(ctx context.Context, targets map[configapi.Target
 
 	// Use the type/version overrides if they are specified
 	if ttv, ok := overrides.Overrides[string(targetID)]; ok {
+		if ttv == nil {
+			// a map entry without a value decodes to a nil message
+			return nil, errors.NewInvalid("target version override for %s has no type and version", targetID)
+		}
 		targetType = ttv.TargetType
 		targetVersion = ttv.TargetVersion
 	} else {
